@@ -661,6 +661,7 @@ func runOne(c *fakecluster.Cluster, run sysRun) (out runOut) {
 				return false
 			}
 		}
+		var envBefore func() // environment action performed right before the next delivery is made (a finalizer completes)
 		deliver := func(id object.ObjMetadata, st status.Status, withRes bool, genDelta int64, newUID bool) bool {
 			if done() || !anyPending() {
 				return false
@@ -672,6 +673,10 @@ func runOne(c *fakecluster.Cluster, run sysRun) (out runOut) {
 			if run.WatchErr == fmt.Sprintf("wait:%d:%d", n, delivered) {
 				sw.send(pollevent.Event{Type: pollevent.ErrorEvent, Error: fmt.Errorf("injected watcher failure")}, stop)
 				return false
+			}
+			if envBefore != nil {
+				envBefore()
+				envBefore = nil
 			}
 			rs := &pollevent.ResourceStatus{Identifier: id, Status: st}
 			if withRes {
@@ -705,9 +710,10 @@ func runOne(c *fakecluster.Cluster, run sysRun) (out runOut) {
 				case "finalizer-gone":
 					if deliver(id, status.TerminatingStatus, true, 0, false) {
 						if k, ok := keyOf(toJid(id)); ok {
-							c.Remove(k)
+							envBefore = func() { c.Remove(k) }
 						}
 						deliver(id, status.NotFoundStatus, false, 0, false)
+						envBefore = nil
 					}
 				default: // gone
 					deliver(id, status.NotFoundStatus, false, 0, false)
